@@ -443,6 +443,78 @@ pub fn tietze_reduce(p: &Pres) -> (Pres, Vec<Word>) {
     (Pres { ngens: m as usize, rels: rels2 }, image2)
 }
 
+/// General Tietze elimination: while some relator of length <= max_len contains a generator
+/// exactly once (as g or g^-1), solve for it, substitute everywhere and drop the relator.
+/// Stops when the total relator length would exceed `max_total`.
+pub fn tietze_eliminate(p: &Pres, max_len: usize, max_total: usize) -> Pres {
+    let mut rels: Vec<Word> = p.rels.iter().map(|w| reduce(w)).filter(|w| !w.is_empty()).collect();
+    let mut alive: Vec<bool> = vec![true; p.ngens + 1];
+    loop {
+        let mut choice: Option<(usize, i64, Word)> = None; // (relator index, generator, replacement for generator)
+        'search: for (k, r) in rels.iter().enumerate() {
+            if r.len() > max_len {
+                continue;
+            }
+            for (pos, &x) in r.iter().enumerate() {
+                let g = x.abs();
+                if r.iter().filter(|&&y| y.abs() == g).count() == 1 {
+                    // r = u x v  =>  x = u^-1 v^-1
+                    let u = &r[..pos];
+                    let v = &r[pos + 1..];
+                    let mut rhs = inverse(u);
+                    rhs.extend(inverse(v));
+                    let rhs = reduce(&rhs);
+                    let repl = if x > 0 { rhs } else { inverse(&rhs) };
+                    choice = Some((k, g, repl));
+                    break 'search;
+                }
+            }
+        }
+        let (k, g, repl) = match choice {
+            Some(c) => c,
+            None => break,
+        };
+        let inv = inverse(&repl);
+        let mut new_rels: Vec<Word> = vec![];
+        for (j, r) in rels.iter().enumerate() {
+            if j == k {
+                continue;
+            }
+            let mut out = vec![];
+            for &x in r {
+                if x == g {
+                    out.extend_from_slice(&repl);
+                } else if x == -g {
+                    out.extend_from_slice(&inv);
+                } else {
+                    out.push(x);
+                }
+            }
+            let out = reduce(&out);
+            if !out.is_empty() {
+                new_rels.push(out);
+            }
+        }
+        let total: usize = new_rels.iter().map(|w| w.len()).sum();
+        if total > max_total {
+            break;
+        }
+        let set: BTreeSet<Word> = new_rels.into_iter().collect();
+        rels = set.into_iter().collect();
+        alive[g as usize] = false;
+    }
+    let mut name = vec![0i64; p.ngens + 1];
+    let mut m = 0;
+    for g in 1..=p.ngens {
+        if alive[g] {
+            m += 1;
+            name[g] = m;
+        }
+    }
+    let rels2: Vec<Word> = rels.iter().map(|w| w.iter().map(|&x| if x > 0 { name[x as usize] } else { -name[(-x) as usize] }).collect()).collect();
+    Pres { ngens: m as usize, rels: rels2 }
+}
+
 // ---------------------------------------------------------------------------
 // Low-index subgroups: all transitive actions on <= k points up to relabelling.
 
@@ -826,6 +898,20 @@ mod tests {
         assert!(q.ngens <= 2);
         assert_eq!(img[0], Vec::<i64>::new());
         assert_eq!(order(&p, 1000), order(&q, 1000));
+    }
+
+    #[test]
+    fn tietze_general() {
+        let s3 = pres(3, &[&[1, 1], &[2, 2], &[1, 2, 1, 2, 1, 2], &[1, 2, -3]]);
+        let q = tietze_eliminate(&s3, 8, 1000);
+        assert_eq!(q.ngens, 2);
+        assert_eq!(order(&q, 1000), Some(6));
+        let a5 = pres(2, &[&[1, 1], &[2, 2, 2], &[1, 2, 1, 2, 1, 2, 1, 2, 1, 2]]);
+        let t = todd_coxeter(&a5, &[vec![1]], 1000).unwrap();
+        let h = reidemeister_schreier(&a5, &t, 3);
+        let hq = tietze_eliminate(&h, 10, 5000);
+        assert_eq!(order(&hq, 5000), Some(2));
+        assert_eq!(order(&h, 5000), Some(2));
     }
 
     #[test]
